@@ -417,7 +417,7 @@ def check_case(im, case, out):
         # betweenness (global range of the payloads; the located version follows from the oracle comparison)
         if not is_int and lf["name"] not in ("@ts_recv",):
             lo, hi = lf["Y"].min(axis=0) - tol, lf["Y"].max(axis=0) + tol
-            Gs = G if not (F > 1 and window > 1) else None  # scrambled leaves are reported above
+            Gs = G
             if Gs is not None and (onp.any(Gs < lo) or onp.any(Gs > hi)):
                 fail("between", f"leaf {lf['name']}: a seen value {G.tolist()} leaves the range of the messages [{lo.tolist()}, {hi.tolist()}]")
     if info_x is None:
